@@ -28,10 +28,63 @@ type scen struct {
 	alpn  int // 0 none, 1 both sides (h2,http/1.1), 2 client only
 	tick  int // 0 no cache, 1 cache (ticket issued), 2 resumption (second handshake examined)
 	curve int // 0 default or a CurveID forced on the server
+	chain int // number of certificates the server sends (0/1 = the bare leaf; see chains.go)
+	opts  int // bit set of zcrypto-specific client options (opt* below)
+	vari  int // variant selector for the explicit lists / client random of opts
+}
+
+// zcrypto-specific client options that (may) change the ClientHello after / outside makeClientHello.
+const (
+	optForceTicket = 1 << iota // ForceSessionTicketExt
+	optSCTExt                  // SignedCertificateTimestampExt
+	optEMS                     // ExtendedMasterSecret
+	optExtRandom               // ExtendedRandom
+	optHeartbeat               // HeartbeatEnabled
+	optNoOCSP                  // NoOcspStapling
+	optDSA                     // ClientDSAEnabled
+	optCurves                  // explicit CurvePreferences (+ ExplicitCurvePreferences)
+	optPoints                  // explicit SupportedPoints
+	optSigHashes               // explicit SignatureAndHashes
+	optRandom                  // explicit ClientRandom
+	optNoTickets               // SessionTicketsDisabled on the client (a cache, if any, is then unusable)
+	optNoBuffer                // DontBufferHandshakes
+	optSkipVerify              // InsecureSkipVerify (the scanner configuration)
+	optEmptyCurves             // ExplicitCurvePreferences with an empty list (TLS <= 1.2, RSA key exchange only)
+	optCount       = iota
+)
+
+// optExternal: the ClientHello is supplied through Config.ExternalClientHello (TLS <= 1.2): a hello captured from a
+// handshake of the same scenario, plus the extensions selected by the bits of scen.vari (ext*). zcrypto parses it,
+// overwrites the SNI with Config.ServerName and re-marshals it — the log must describe what that put on the wire.
+const optExternal = 1 << 15
+
+const (
+	extEMS       = 1 << iota // extended_master_secret (23), empty
+	extExtRandom             // extended_random (0x0028)
+	extHeartbeat             // heartbeat (15)
+	extUnknown               // an extension zcrypto does not know (0x1234)
+	extTicket                // empty session_ticket (35), if the captured hello has none
+	extSNI                   // the supplied hello names another host (zcrypto replaces it by Config.ServerName)
+	extCount     = iota
+)
+
+var extNames = []string{"ems", "extended-random", "heartbeat", "unknown", "ticket", "sni"}
+
+var optNames = []string{"force-ticket", "sct-ext", "ems", "ext-random", "heartbeat", "no-ocsp", "dsa", "curves", "points",
+	"sighashes", "client-random", "no-tickets", "no-buffer", "skip-verify", "empty-curves"}
+
+var curveVariants = [][]tls.CurveID{{23}, {29, 23}, {24, 25, 23}, {25, 29}, {23, 24}, {29}}
+var pointVariants = [][]uint8{{0}, {0, 1}, {1, 0, 2}, {2, 0}}
+
+// supersets / permutations of what a zcrypto server may choose for the ServerKeyExchange signature
+var sigHashVariants = [][]tls.SigAndHash{
+	{{Signature: 1, Hash: 4}, {Signature: 3, Hash: 4}, {Signature: 1, Hash: 2}, {Signature: 3, Hash: 2}, {Signature: 1, Hash: 5}, {Signature: 3, Hash: 5}, {Signature: 1, Hash: 6}, {Signature: 3, Hash: 6}},
+	{{Signature: 3, Hash: 6}, {Signature: 1, Hash: 6}, {Signature: 3, Hash: 5}, {Signature: 1, Hash: 5}, {Signature: 3, Hash: 4}, {Signature: 1, Hash: 4}, {Signature: 3, Hash: 2}, {Signature: 1, Hash: 2}, {Signature: 2, Hash: 2}},
+	{{Signature: 1, Hash: 2}, {Signature: 1, Hash: 4}, {Signature: 1, Hash: 5}, {Signature: 1, Hash: 6}, {Signature: 3, Hash: 2}, {Signature: 3, Hash: 4}, {Signature: 3, Hash: 5}, {Signature: 3, Hash: 6}, {Signature: 2, Hash: 4}, {Signature: 1, Hash: 1}},
 }
 
 func (s scen) String() string {
-	return fmt.Sprintf("%d %04x %s %d %d %d", s.ver, s.suite, s.key, s.alpn, s.tick, s.curve)
+	return fmt.Sprintf("%d %04x %s %d %d %d %d %x %d", s.ver, s.suite, s.key, s.alpn, s.tick, s.curve, s.chain, s.opts, s.vari)
 }
 
 func parseScen(f []string) scen {
@@ -40,7 +93,14 @@ func parseScen(f []string) scen {
 	a, _ := strconv.Atoi(f[3])
 	t, _ := strconv.Atoi(f[4])
 	c, _ := strconv.Atoi(f[5])
-	return scen{v, uint16(su), f[2], a, t, c}
+	s := scen{ver: v, suite: uint16(su), key: f[2], alpn: a, tick: t, curve: c}
+	if len(f) >= 9 {
+		s.chain, _ = strconv.Atoi(f[6])
+		o, _ := strconv.ParseUint(f[7], 16, 32)
+		s.opts = int(o)
+		s.vari, _ = strconv.Atoi(f[8])
+	}
+	return s
 }
 
 var verNum = map[int]uint16{10: tls.VersionTLS10, 11: tls.VersionTLS11, 12: tls.VersionTLS12, 13: tls.VersionTLS13}
@@ -110,7 +170,7 @@ func configs(s scen) (*tls.Config, *tls.Config, *keyLog) {
 	kl := &keyLog{}
 	v := verNum[s.ver]
 	ccfg := &tls.Config{RootCAs: p.Roots, ServerName: tlsrig.Host, MinVersion: v, MaxVersion: v, KeyLogWriter: kl}
-	scfg := &tls.Config{Certificates: []tls.Certificate{p.Leaf[s.key]}, MinVersion: tls.VersionTLS10, MaxVersion: tls.VersionTLS13}
+	scfg := &tls.Config{Certificates: []tls.Certificate{serverCert(s.key, s.chain)}, MinVersion: tls.VersionTLS10, MaxVersion: tls.VersionTLS13}
 	if s.suite != 0 {
 		ccfg.CipherSuites = []uint16{s.suite}
 		ccfg.ForceSuites = true
@@ -131,7 +191,53 @@ func configs(s scen) (*tls.Config, *tls.Config, *keyLog) {
 	if s.curve != 0 {
 		scfg.CurvePreferences = []tls.CurveID{tls.CurveID(s.curve)}
 	}
+	applyOpts(ccfg, s)
 	return ccfg, scfg, kl
+}
+
+func (s scen) has(o int) bool { return s.opts&o != 0 }
+
+// clientRandomFor: the explicit ClientRandom of a scenario (a recognisable, scenario dependent pattern).
+func clientRandomFor(s scen) []byte {
+	b := make([]byte, 32)
+	for i := range b {
+		b[i] = byte(0xc0 ^ (s.vari*7 + i*13 + s.ver))
+	}
+	return b
+}
+
+func applyOpts(c *tls.Config, s scen) {
+	c.ForceSessionTicketExt = s.has(optForceTicket)
+	c.SignedCertificateTimestampExt = s.has(optSCTExt)
+	c.ExtendedMasterSecret = s.has(optEMS)
+	c.ExtendedRandom = s.has(optExtRandom)
+	c.HeartbeatEnabled = s.has(optHeartbeat)
+	c.NoOcspStapling = s.has(optNoOCSP)
+	c.ClientDSAEnabled = s.has(optDSA)
+	if s.has(optCurves) {
+		c.CurvePreferences = curveVariants[s.vari%len(curveVariants)]
+		c.ExplicitCurvePreferences = s.vari%2 == 1
+	}
+	if s.has(optEmptyCurves) {
+		c.CurvePreferences = nil
+		c.ExplicitCurvePreferences = true
+	}
+	if s.has(optPoints) {
+		c.SupportedPoints = pointVariants[s.vari%len(pointVariants)]
+	}
+	if s.has(optSigHashes) {
+		c.SignatureAndHashes = sigHashVariants[s.vari%len(sigHashVariants)]
+	}
+	if s.has(optRandom) {
+		c.ClientRandom = clientRandomFor(s)
+	}
+	if s.has(optNoTickets) {
+		c.SessionTicketsDisabled = true
+	}
+	c.DontBufferHandshakes = s.has(optNoBuffer)
+	if s.has(optSkipVerify) {
+		c.InsecureSkipVerify = true
+	}
 }
 
 func runScen(s scen) *run {
@@ -148,11 +254,70 @@ func runScen(s scen) *run {
 		first.Client.Conn.Close()
 		first.Server.Conn.Close()
 	}
+	if s.has(optExternal) {
+		base := s
+		base.opts &^= optExternal
+		base.tick = 0
+		if m := collect(base); m != nil && m.ch != nil {
+			ccfg.ExternalClientHello = externalHello(m.ch, s.vari)
+		}
+	}
 	r.res = tlsrig.Handshake(ccfg, scfg, tlsrig.Opts{KeepOpen: true})
 	if r.res.Client.Err == nil {
 		r.resumed = r.res.Client.State.DidResume
 	}
 	return r
+}
+
+// externalHello: the captured ClientHello handshake message with the selected extensions appended (lengths fixed up)
+// and, for extSNI, another host name of the same length.
+func externalHello(raw []byte, sel int) []byte {
+	out := append([]byte(nil), raw...)
+	p := 4 + 2 + 32
+	if len(out) < p+1 {
+		return out
+	}
+	p += 1 + int(out[p])
+	if len(out) < p+2 {
+		return out
+	}
+	p += 2 + (int(out[p])<<8 | int(out[p+1]))
+	if len(out) < p+1 {
+		return out
+	}
+	p += 1 + int(out[p])
+	if len(out) < p+2 {
+		return out
+	}
+	h, err := parseClientHello(raw[4:])
+	if err != nil {
+		return out
+	}
+	if sel&extSNI != 0 {
+		if i := bytes.Index(out, []byte(tlsrig.Host)); i >= 0 {
+			out[i+1] ^= 3 // "example.com" -> another name of the same length
+		}
+	}
+	if sel&extEMS != 0 {
+		out = append(out, 0, 23, 0, 0)
+	}
+	if sel&extExtRandom != 0 {
+		out = append(out, 0, 0x28, 0, 6, 0, 4, 0xde, 0xad, 0xbe, 0xef)
+	}
+	if sel&extHeartbeat != 0 {
+		out = append(out, 0, 15, 0, 1, 1)
+	}
+	if sel&extUnknown != 0 {
+		out = append(out, 0x12, 0x34, 0, 3, 7, 8, 9)
+	}
+	if _, has := h.ext(35); sel&extTicket != 0 && !has {
+		out = append(out, 0, 35, 0, 0)
+	}
+	n := len(out) - p - 2
+	out[p], out[p+1] = byte(n>>8), byte(n)
+	l := len(out) - 4
+	out[1], out[2], out[3] = byte(l>>16), byte(l>>8), byte(l)
+	return out
 }
 
 func (r *run) close() {
